@@ -474,4 +474,352 @@ theorem handleEnd_atEnd (text : Bool) (list : List Sym) (body : List Nat) (hb : 
               simp [packTriples]
           | _ :: _ :: _ :: _, hs => simp at hs
 
+/-- `handle_end` reached with an empty buffer and exactly two digits left: they go to ASCII as one pair -/
+theorem handleEnd_digits (text : Bool) (list : List Sym) (body : List Nat) (hb : ByteList body) (s s' : St)
+    (lastCh m : Nat) (inv : C40Inv text list body s [] lastCh m) (hcl : s.charsLeft = 2)
+    (htd : twoDigitsComing s.rest = true) (h : c40HandleEnd s lastCh [] = .ok s') : C40End text list body s' := by
+  have hmore : s.hasMore = true := by
+    simp only [St.hasMore, St.charsLeft] at hcl ⊢
+    simp; omega
+  have hWlen : (W text body s.pos).length = 3 * m := by
+    have := inv.bufEq
+    have h2 := congrArg List.length this
+    simp only [List.length_nil, List.length_drop] at h2
+    have := inv.m3; omega
+  have hV : (W text body s.pos).take (3 * m) = W text body s.pos := List.take_of_length_le (by omega)
+  unfold c40HandleEnd at h
+  simp only [List.length_nil, Nat.not_lt_zero, ↓reduceIte, hmore, Bool.not_true, Bool.false_eq_true, List.isEmpty_nil,
+    hcl, Nat.lt_add_one, Nat.zero_lt_succ, htd, and_self, gt_iff_lt, Nat.reduceLT] at h
+  unfold St.sizeLeftE at h
+  cases hsl : s.sizeLeft 1 with
+  | none => rw [hsl] at h; cases h
+  | some sp =>
+    rw [hsl] at h
+    simp only [Except.ok.injEq] at h
+    obtain ⟨S, hS, hScap⟩ := sizeLeft_eq s 1 sp hsl
+    rw [inv.list] at hS
+    have hdec : ∀ out, c40Values (tabs text).1 (tabs text).2 (W text body s.pos) st0 out = .ok (st0, out ++ body.take s.pos) := by
+      intro out
+      have := W_dec text body hb s.pos [] out
+      simp only [List.append_nil, c40Values] at this
+      exact this
+    have hasz : asciiSize (body.drop s.pos) = 1 := by
+      have hr : s.rest = body.drop s.pos := by simp [St.rest, inv.input]
+      rw [← hr]
+      have hl : s.rest.length = 2 := by rw [hr, List.length_drop]; simp only [St.charsLeft, inv.input] at hcl; exact hcl
+      match hrr : s.rest, hl, htd with
+      | [a, b], _, htd =>
+        simp only [twoDigitsComing] at htd
+        simp [asciiSize, htd]
+    by_cases hsp : sp ≥ 1
+    · rw [if_pos hsp] at h
+      subst h
+      exact ⟨W text body s.pos, m, s.pos, true, st0, hWlen, W_lt text body hb s.pos, hdec, inv.le,
+        by simp [St.push, St.setAscii, inv.cw, hV], rfl, by simp [St.push, St.setAscii, inv.input],
+        by simp [St.push, St.setAscii, inv.list], by simp [St.push, St.setAscii, inv.newMode], Or.inl ⟨rfl, rfl⟩, by simp⟩
+    · rw [if_neg hsp] at h
+      subst h
+      refine ⟨W text body s.pos, m, s.pos, false, st0, hWlen, W_lt text body hb s.pos, hdec, inv.le,
+        by simp [St.setAscii, inv.cw, hV], rfl, by simp [St.setAscii, inv.input],
+        by simp [St.setAscii, inv.list], by simp [St.setAscii, inv.newMode], Or.inl ⟨rfl, rfl⟩, fun _ => ?_⟩
+      rw [hasz]
+      exact ⟨Nat.le_refl _, S, by simpa [St.setAscii] using hS, by simp only [St.setAscii]; omega⟩
+
+theorem take_len_add (A B : List Nat) (k : Nat) : (A ++ B).take (A.length + k) = A ++ B.take k := by
+  induction A with
+  | nil => simp
+  | cons a t ih => simp only [List.cons_append, List.length_cons]; rw [show t.length + 1 + k = (t.length + k) + 1 by omega]; simp [ih]
+
+theorem drop_len_add (A B : List Nat) (k : Nat) : (A ++ B).drop (A.length + k) = B.drop k := by
+  induction A with
+  | nil => simp
+  | cons a t ih => simp only [List.cons_append, List.length_cons]; rw [show t.length + 1 + k = (t.length + k) + 1 by omega]; simp [ih]
+
+theorem c40Loop_spec (text : Bool) (list : List Sym) (body : List Nat) (hb : ByteList body) :
+    ∀ (n f : Nat) (s : St) (buf : List Nat) (lastCh m : Nat) (s' : St), body.length - s.pos = n → n < f →
+      C40Inv text list body s buf lastCh m → c40Loop text f s buf lastCh = .ok s' → C40End text list body s' := by
+  intro n
+  induction n with
+  | zero =>
+    intro f s buf lastCh m s' hn hf inv h
+    cases f with
+    | zero => omega
+    | succ f =>
+      unfold c40Loop at h
+      have hmore : s.hasMore = false := by
+        simp only [St.hasMore, inv.input]
+        have := inv.le
+        simp; omega
+      have hnone : s.eat = none := by
+        simp only [St.eat]
+        rw [List.getElem?_eq_none (by rw [inv.input]; have := inv.le; omega)]
+      rw [hnone] at h
+      exact handleEnd_atEnd text list body hb s s' buf lastCh m inv hmore h
+  | succ n ih =>
+    intro f s buf lastCh m s' hn hf inv h
+    cases f with
+    | zero => omega
+    | succ f =>
+      unfold c40Loop at h
+      have hlt : s.pos < body.length := by omega
+      have he : s.eat = some (body[s.pos], { s with pos := s.pos + 1 }) := by
+        simp only [St.eat]
+        rw [List.getElem?_eq_getElem (by rw [inv.input]; exact hlt)]
+        simp [inv.input]
+      rw [he] at h
+      simp only [] at h
+      have hchlt : body[s.pos] < 256 := hb _ (List.getElem_mem hlt)
+      -- the ordinary step: values of the character, complete triples flushed
+      have normal : (match toVals text buf body[s.pos] with
+          | .error e => .error e
+          | .ok buf1 =>
+            let (s2, buf2) := flushTriples 3 { s with pos := s.pos + 1 } buf1
+            match s2.maybeSwitch with
+            | .error e => .error e
+            | .ok (true, s3) => c40HandleEnd s3 body[s.pos] buf2
+            | .ok (false, s3) => c40Loop text f s3 buf2 body[s.pos]) = Except.ok s' → C40End text list body s' := by
+        intro h
+        rw [toVals_eq text buf body[s.pos] hchlt] at h
+        by_cases hcap : (buf ++ c40Vals text body[s.pos]).length > 6
+        · rw [if_pos hcap] at h
+          cases h
+        · rw [if_neg hcap] at h
+          simp only [] at h
+          have hWlt := W_lt text body hb (s.pos + 1)
+          have hWs : W text body (s.pos + 1) = W text body s.pos ++ c40Vals text body[s.pos] := W_succ text body s.pos hlt
+          have hWsplit : W text body s.pos = (W text body s.pos).take (3 * m) ++ buf := by
+            rw [inv.bufEq, List.take_append_drop]
+          have hW' : W text body (s.pos + 1) = (W text body s.pos).take (3 * m) ++ (buf ++ c40Vals text body[s.pos]) := by
+            rw [hWs]
+            conv => lhs; rw [hWsplit]
+            rw [List.append_assoc]
+          have hVlen : ((W text body s.pos).take (3 * m)).length = 3 * m := by
+            rw [List.length_take]; have := inv.m3; omega
+          have hb1lt : ∀ v ∈ buf ++ c40Vals text body[s.pos], v < 40 := by
+            intro v hv
+            exact hWlt v (by rw [hW']; exact List.mem_append_right _ hv)
+          obtain ⟨k, k1, k2, k3⟩ := flush_spec 3 { s with pos := s.pos + 1 } (buf ++ c40Vals text body[s.pos])
+            (by omega) hb1lt
+          rw [k3] at h
+          simp only [] at h
+          have inv' : C40Inv text list body
+              { { s with pos := s.pos + 1 } with cw := s.cw ++ packTriples ((buf ++ c40Vals text body[s.pos]).take (3 * k)) }
+              ((buf ++ c40Vals text body[s.pos]).drop (3 * k)) body[s.pos] (m + k) := by
+            refine ⟨inv.input, inv.list, inv.mode, inv.plan, inv.newMode, by simp only []; omega, ?_, ?_, ?_, ?_, ?_⟩
+            · simp only []
+              rw [hW', List.length_append, hVlen]
+              omega
+            · simp only []
+              rw [hW']
+              have : 3 * (m + k) = ((W text body s.pos).take (3 * m)).length + 3 * k := by rw [hVlen]; omega
+              rw [this, drop_len_add]
+            · rw [List.length_drop]; omega
+            · simp only []
+              rw [inv.cw, hW']
+              have : 3 * (m + k) = ((W text body s.pos).take (3 * m)).length + 3 * k := by rw [hVlen]; omega
+              rw [this, take_len_add, packTriples_append m _ _ hVlen]
+              simp
+            · intro _
+              simp [List.getD, List.getElem?_eq_getElem hlt]
+          rw [maybeSwitch_pure _ (modeOf text) inv'.plan inv'.mode] at h
+          simp only [] at h
+          exact ih f _ _ _ (m + k) s' (by simp only []; omega) (by omega) inv' h
+      have hrest1 : ({ s with pos := s.pos + 1 } : St).rest = body.drop (s.pos + 1) := by simp [St.rest, inv.input]
+      split at h
+      · rename_i d hr
+        rw [hrest1] at hr
+        by_cases hc : (buf.isEmpty && isDigit body[s.pos] && isDigit d) = true
+        · -- empty buffer and only two digits remain
+          rw [if_pos hc] at h
+          simp only [Bool.and_eq_true] at hc
+          obtain ⟨⟨hbe, hd1⟩, hd2⟩ := hc
+          have hb0 : buf = [] := by simpa using hbe
+          subst hb0
+          have hbk : ({ s with pos := s.pos + 1 } : St).backup 1 = .ok s := by
+            unfold St.backup
+            rw [if_pos (by simp)]
+            simp
+          rw [hbk] at h
+          simp only [] at h
+          have hlen2 : body.length = s.pos + 2 := by
+            have := congrArg List.length hr
+            simp only [List.length_drop, List.length_singleton] at this
+            omega
+          have hcl : s.charsLeft = 2 := by simp [St.charsLeft, inv.input]; omega
+          have htd : twoDigitsComing s.rest = true := by
+            have : s.rest = [body[s.pos], d] := by
+              simp only [St.rest, inv.input]
+              rw [List.drop_eq_getElem_cons hlt, hr]
+            rw [this]
+            simp [twoDigitsComing, hd1, hd2]
+          exact handleEnd_digits text list body hb s s' lastCh m inv hcl htd h
+        · rw [if_neg hc] at h
+          exact normal h
+      · simp only [Bool.and_false, Bool.false_eq_true, ↓reduceIte] at h
+        exact normal h
+
+/-! ### the whole run -/
+
+def c0 (text : Bool) (list : List Sym) (body : List Nat) : St :=
+  { input := body, pos := 0, mode := .ascii, plan := [(body.length, modeOf text), (0, modeOf text)], newMode := none,
+    cw := [], list := list }
+
+def c1 (text : Bool) (list : List Sym) (body : List Nat) : St :=
+  { input := body, pos := 0, mode := modeOf text, plan := [(0, modeOf text)], newMode := some (latchOf text),
+    cw := [], list := list }
+
+def cL (text : Bool) (list : List Sym) (body : List Nat) : St :=
+  { input := body, pos := 0, mode := modeOf text, plan := [(0, modeOf text)], newMode := none,
+    cw := [latchOf text], list := list }
+
+theorem c_iter1 (text : Bool) (list : List Sym) (body : List Nat) (hne : body ≠ []) (f : Nat) :
+    asciiLoop (f + 1) (c0 text list body) = .ok (c1 text list body) := by
+  have hpos : 0 < body.length := List.length_pos_iff.mpr hne
+  rw [asciiLoop]
+  have : (c0 text list body).maybeSwitch = .ok (true, c1 text list body) := by
+    cases text <;>
+    simp only [St.maybeSwitch, c0, c1, modeOf, latchOf, St.charsLeft, Nat.sub_zero, Nat.lt_irrefl, ↓reduceIte, hpos,
+      and_self, ne_eq, reduceCtorEq, not_false_eq_true, EMode.latch, Bool.false_eq_true]
+  rw [this]
+
+theorem addPadding_exact (cw : List Nat) (b : Bool) (cap : Nat) (h : cw.length = cap) : addPadding cw b cap = some cw := by
+  unfold addPadding
+  rw [if_neg (by omega)]
+  simp [h]
+
+theorem pure_c40_roundtrip (text : Bool) (list : List Sym) (body cw : List Nat) (sym : Sym) (hb : ByteList body)
+    (h : run list [] body [(body.length, modeOf text), (0, modeOf text)] = .ok (cw, sym)) : decodeData cw = .ok body := by
+  by_cases hne : body = []
+  · subst hne
+    have : run list [] [] [(([] : List Nat).length, modeOf text), (0, modeOf text)] = run list [] [] [(0, .ascii)] := by
+      unfold run
+      simp only [List.length_nil]
+      rw [Enc.mainLoop, Enc.mainLoop]
+      simp [St.hasMore]
+    rw [this] at h
+    obtain ⟨hle, hcw⟩ := run_ascii list [] cw sym h
+    rw [hcw]
+    exact decodeData_ascii [] hb (dataCw sym) hle
+  obtain ⟨sE, hmain, hsym, hpad⟩ := run_unfold list body _ cw sym h
+  have hlen : 0 < body.length := List.length_pos_iff.mpr hne
+  have hs0 : (c0 text list body).hasMore = true := by simp [St.hasMore, c0, hlen]
+  obtain ⟨s1, k1, he1, hm1⟩ := mainLoop_step (2 * body.length + 7) (c0 text list body) sE 0 hmain hs0
+  have hl0 : latched (c0 text list body) = c0 text list body := rfl
+  rw [hl0] at he1
+  have hmode0 : (c0 text list body).mode = .ascii := rfl
+  simp only [encodeMode, hmode0] at he1
+  rw [c_iter1 text list body hne (St.charsLeft (c0 text list body) + 1)] at he1
+  simp only [Except.ok.injEq] at he1
+  subst he1
+  obtain ⟨s3, k2, he2, hm2⟩ := mainLoop_step (2 * body.length + 6) _ sE k1 hm1 (by simp [St.hasMore, c1, hlen])
+  have hl1 : latched (c1 text list body) = cL text list body := rfl
+  rw [hl1] at he2
+  have hloop : c40Loop text ((cL text list body).charsLeft + 2) (cL text list body) [] 0 = .ok s3 := by
+    cases text <;> simpa [encodeMode, cL, modeOf, c40Encode] using he2
+  have inv0 : C40Inv text list body (cL text list body) [] 0 0 :=
+    ⟨rfl, rfl, rfl, rfl, rfl, Nat.zero_le _, by simp, by simp [W, cL], by simp, by simp [W, cL, packTriples], by simp [cL]⟩
+  obtain ⟨V, n, p, un, st', hVl, hVlt, hdec, hp, hcw3, hpos3, hin3, hli3, hnm3, hmode3, hexact⟩ :=
+    (c40Loop_spec text list body hb body.length _ (cL text list body) [] 0 0 s3 (by simp [cL]) (by simp [St.charsLeft, cL])
+      inv0 hloop).out
+  have hbeq : (EMode.ascii == EMode.ascii) = true := by decide
+  have hsplit : body.take p ++ body.drop p = body := List.take_append_drop _ _
+  have hrest : ByteList (body.drop p) := hb.drop _
+  have hseg := asciiSeg_asciiEnc _ hrest
+  have haszlen : (asciiEnc (body.drop p)).length = asciiSize (body.drop p) := asciiEnc_length _ _ (Nat.le_refl _)
+  -- the rest (at most two characters) goes to ASCII
+  have hE : sE.cw = s3.cw ++ asciiEnc (body.drop p) ∧ (un = true → sE.mode = .ascii) := by
+    by_cases hmore : s3.hasMore = true
+    · have hasc : s3.mode = .ascii ∧ s3.plan = [(0, .ascii)] := by
+        rcases hmode3 with hA | ⟨hB, _⟩
+        · exact hA
+        · exfalso
+          have := of_decide_eq_true hmore
+          rw [hpos3, hin3, hB] at this
+          omega
+      obtain ⟨s4, k3, he3, hm3⟩ := mainLoop_step (2 * body.length + 5) _ sE k2 hm2 hmore
+      have hl3 : latched s3 = s3 := by simp [latched, hnm3]
+      rw [hl3] at he3
+      simp only [encodeMode, hasc.1] at he3
+      rw [asciiLoop_rest s3 hasc.2 hasc.1 (by rw [hpos3, hin3]; exact hp)] at he3
+      simp only [Except.ok.injEq] at he3
+      subst he3
+      rw [mainLoop_end _ _ _ (by simp [St.hasMore])] at hm3
+      simp only [Except.ok.injEq] at hm3
+      subst hm3
+      exact ⟨by simp [St.rest, hpos3, hin3], fun _ => hasc.1⟩
+    · have hmf : s3.hasMore = false := by simpa using hmore
+      rw [mainLoop_end _ _ _ hmf] at hm2
+      simp only [Except.ok.injEq] at hm2
+      subst hm2
+      have hnil : body.drop p = [] := by
+        have := of_decide_eq_false hmf
+        rw [hpos3, hin3] at this
+        exact List.drop_eq_nil_of_le (by omega)
+      refine ⟨by simp [hnil, asciiEnc], fun hu => ?_⟩
+      rcases hmode3 with hA | ⟨_, hB⟩
+      · exact hA.1
+      · rw [hu] at hB; cases hB
+  obtain ⟨e1c, e2c⟩ := hE
+  rw [e1c] at hsym hpad
+  cases un with
+  | true =>
+    rw [e2c rfl] at hpad
+    have hcap := firstBigEnough_le list _ sym hsym
+    rw [hbeq, addPadding_ascii_pads _ _ hcap] at hpad
+    simp only [Option.some.injEq] at hpad
+    subst hpad
+    obtain ⟨ef, hpads⟩ := DM.Props.C04.decRun_pads (s3.cw ++ asciiEnc (body.drop p)).length
+      (dataCw sym - (s3.cw ++ asciiEnc (body.drop p)).length) body []
+    have hpadhead : (DM.Props.C04.padsOf (s3.cw ++ asciiEnc (body.drop p)).length
+        (dataCw sym - (s3.cw ++ asciiEnc (body.drop p)).length)).head? ≠ some 254 := by
+      unfold DM.Props.C04.padsOf
+      split <;> simp
+    have hl3 : (s3.cw ++ asciiEnc (body.drop p)).length = 0 + (1 + 2 * n + 1) + (asciiEnc (body.drop p)).length := by
+      rw [hcw3]
+      have := packTriples_length n V hVl
+      simp [this]; omega
+    generalize DM.Props.C04.padsOf (s3.cw ++ asciiEnc (body.drop p)).length
+      (dataCw sym - (s3.cw ++ asciiEnc (body.drop p)).length) = P at hpads hpadhead ⊢
+    rw [hl3] at hpads
+    apply decodeData_of_decRun _ body ef
+    · rw [hcw3]; intro c hc; cases text <;> simp [latchOf] at hc <;> omega
+    · rw [hcw3]
+      have htail : TripleTail true (asciiEnc (body.drop p) ++ P) := by
+        refine ⟨?_, by simp⟩
+        cases hx : asciiEnc (body.drop p) with
+        | nil => simpa using hpadhead
+        | cons x xs =>
+          simp only [List.cons_append, List.head?_cons, ne_eq, Option.some.injEq]
+          exact (hseg.1 x (by rw [hx]; simp)).1
+      have := seg_c40_vals text V (body.take p) st' n hVl hVlt hdec true _ htail 0 []
+      simp only [↓reduceIte, List.nil_append, latchOf, List.append_assoc, List.singleton_append, List.cons_append] at this ⊢
+      rw [this, decRun_asciiSeg hseg, hsplit]
+      exact hpads
+  | false =>
+    obtain ⟨hasz1, S, hS, hScap⟩ := hexact rfl
+    have hl2 : (s3.cw ++ asciiEnc (body.drop p)).length = s3.cw.length + asciiSize (body.drop p) := by simp [haszlen]
+    rw [hl2, hS] at hsym
+    simp only [Option.some.injEq] at hsym
+    subst hsym
+    rw [addPadding_exact _ _ _ (by rw [hl2]; exact hScap.symm)] at hpad
+    simp only [Option.some.injEq] at hpad
+    subst hpad
+    apply decodeData_of_decRun _ body (0 + (1 + 2 * n + 0) + (asciiEnc (body.drop p)).length)
+    · rw [hcw3]; intro c hc; cases text <;> simp [latchOf] at hc <;> omega
+    · rw [hcw3]
+      have htail : TripleTail false (asciiEnc (body.drop p)) := by
+        refine ⟨?_, fun _ => by omega⟩
+        cases hx : asciiEnc (body.drop p) with
+        | nil => simp
+        | cons x xs =>
+          simp only [List.head?_cons, ne_eq, Option.some.injEq]
+          exact (hseg.1 x (by rw [hx]; simp)).1
+      have := seg_c40_vals text V (body.take p) st' n hVl hVlt hdec false _ htail 0 []
+      simp only [Bool.false_eq_true, ↓reduceIte, List.nil_append, latchOf, List.append_nil, List.singleton_append,
+        List.cons_append] at this ⊢
+      rw [this]
+      have h2 := decRun_asciiSeg hseg [] (0 + (1 + 2 * n + 0)) (body.take p)
+      simp only [List.append_nil] at h2
+      rw [h2, decRun_nil _ _ rfl, hsplit]
+
 end DM.Lemmas.C40RT
